@@ -1,8 +1,9 @@
-CONSTANT Families = {"basis", "sweep", "masks", "zerow", "general", "tset"}
+CONSTANT Families = {"basis", "sweep", "masks", "zerow", "general", "history", "tset"}
 CONSTANT Dens = {1, 2, 3, 4, 5, 6, 7, 8}
 CONSTANT CoefSel = "full"
 CONSTANT XIds = {1, 2, 3, 4, 5, 6}
 CONSTANT ZIds = {1, 3}
+CONSTANT HIds = {1, 3, 5}
 CONSTANT Lays = {1, 2, 3, 4}
 CONSTANT Mod = 1
 CONSTANT TsMod = 2
@@ -24,6 +25,7 @@ INVARIANT C13_SolveAgreesOnExact
 INVARIANT C13_WellPosedIsSolvable
 INVARIANT C13_ZeroWeightNoInfluence
 INVARIANT C13_NoBetterNeighbour
+INVARIANT C13_HistoryPerCall
 INVARIANT C13_TsetExact
 INVARIANT C13_TsetWLS
 INVARIANT C13_FitThenEvaluate
